@@ -13,7 +13,7 @@ def _pos(pat, text, what):
 
 # ------------------------------------------------- C14: guards and comparison operators of vn/best.rs, vn/first.rs
 def gen_vn():
-    out = HEADER.format(src="src/algorithms/vn/best.rs, src/algorithms/vn/first.rs")
+    out = HEADER.format(src="src/algorithms/vn/best.rs, src/algorithms/vn/first.rs, src/imbalance.rs")
     b = fn_body(read("src/algorithms/vn/best.rs"), "vn_best_mono")
     if b is None:
         raise Fail("fn vn_best_mono not found")
@@ -44,6 +44,20 @@ def gen_vn():
     out += "Definition vnbest_source_is_heaviest : bool := %s.\n" % coq_bool(
         len(re.findall(r"partition\[criterion\[\w+\]\.1\]\s*==\s*overweight_part", b)) == 2
         and re.search(r"\.minmax_by_key\(\|&\(_part,\s*load\)\|\s*load\)", b) is not None)
+    # compute_parts_load (src/imbalance.rs): ONE fold over all (part, weight) pairs into per-part loads, partial
+    # results added element-wise; fails closed on blocked / chunked / row-matrix variants
+    cb = fn_body(read("src/imbalance.rs"), "compute_parts_load")
+    if cb is None:
+        raise Fail("fn compute_parts_load not found")
+    cbn = re.sub(r"\s+", "", re.sub(r"//[^\n]*", "", cb))
+    single_fold = (
+        "partition.par_iter().zip(weights).fold(||vec![W::Item::zero();num_parts],|mutacc,(&part,w)|{acc[part]+=w;acc},)" in cbn
+        and ".reduce_with(|mutweights0,weights1|{for(w0,w1)inweights0.iter_mut().zip(weights1){*w0+=w1;}weights0})" in cbn
+        and ".unwrap_or_else(||vec![W::Item::zero();num_parts])" in cbn
+        and not re.search(r"chunks|BLOCK|for_each|collect\(|return", cb)
+        and len(re.findall(r"\.zip\(", cb)) == 2
+    )
+    out += "Definition parts_load_single_fold : bool := %s.\n" % coq_bool(single_fold)
     f = fn_body(read("src/algorithms/vn/first.rs"), "vn_first")
     if f is None:
         raise Fail("fn vn_first not found")
@@ -80,6 +94,10 @@ PROP = dict(
          "one negative weight among non-negative ones, and all weights <= 0 with at least one zero and one negative "
          "(maximum exactly 0); plus a REUSE stream (about 30 % of the cases): one VnBest / VnFirst value serves a sequence "
          "of 2-4 calls (its own output again, new weights on that output, another length), each call a case of its own; "
+         "plus a LARGE family (a few cases per quick run, ~100 per thorough run): 4097..9999 weights (4097, 4104, 5000, 8191, "
+         "8193, 9000, 9999), 2..8 parts, i64 or integer-valued f64, the last len % 4096 positions holding all the weight of "
+         "the last part (made the heaviest) or weights (n-t)/t times larger -- described by generator parameters, output "
+         "given as a difference, judged by the certified checker on exact loads only (the model is not run at this size); "
          "plus a GENUINE-f64 stream (1 unit in 5): tenths, small decimals, thirds, mixed magnitudes, random mantissas, ties "
          "between rounded sums, one dominant 1e15, a negative / -0.0 family; bit patterns, run on a rayon pool of ONE thread "
          "(fixed summation order), VnBest in a child process that is killed after 4 s (its loop may not end), compared "
@@ -87,7 +105,7 @@ PROP = dict(
          "arithmetic with a tolerance of total/2^45; distinct = distinct (algorithm, "
          "weight type, weights, partition); non-trivial = matching lengths, at least 3 weights, at least two parts in "
          "the input, not all weights zero",
-    class_names={0: "Ok, partition unchanged", 5: "Ok, at least one element moved", 1: "InputLenMismatch",
+    class_names={9: "Ok (large input, thousands of weights: certified checker only)", 0: "Ok, partition unchanged", 5: "Ok, at least one element moved", 1: "InputLenMismatch",
                  2: "NegativeValues", 6: "other error", 3: "panic", 4: "hang",
                  7: "Ok (genuine f64): exact gap not larger", 8: "Ok (genuine f64): exact gap larger, within the rounding tolerance"},
     trusted_base=[
@@ -130,7 +148,7 @@ MANIFEST = dict(
          "VnFirst can raise the exact gap by a rounding error "
          "(C14_vnfirst_f64_exact_gap_refuted); the integer theorems stand as stated for i64 and integer-valued f64.",
     design_ref="DESIGN.md §7 C14",
-    note="Trusted: Coq kernel; model<->code tie = translator (11 literals) + differential runs (4k/40k cases); itertools minmax "
+    note="Trusted: Coq kernel; model<->code tie = translator (12 literals) + differential runs (4k/40k cases); itertools minmax "
          "and binary_search contracts as listed; no axioms.",
     technique="Coq proof (loop invariants; decreasing sum of squares; invariant on tracked vs true loads for VnFirst) + translator "
               "+ model/implementation correspondence + certified checker",
